@@ -33,7 +33,7 @@ Lemma icall_headers_spec {L R B} fuel0 hc (get : L -> list slot) put putmem (l :
   end.
 Proof.
   destruct Efwd as (_ & Hv & Hn).
-  intros fin. rewrite <- (tie_headers E fuel0 hc Hn Hv (get l) c). unfold icall_headers.
+  intros fin. rewrite <- (tie_headers E fuel0 hc Hn Hv (get l) c). unfold icall_headers, isub.
   destruct (ifun _ _ _) as [n lh c'|lh|e lh|f lh|x lh c']; cbn [hdr_fin]; eauto.
 Qed.
 
